@@ -191,11 +191,76 @@ def job_audio(j):
         shutil.rmtree(work, ignore_errors=True)
 
 
+def make_wav(path, ms):
+    with wave.open(str(path), "wb") as w:
+        w.setnchannels(1)
+        w.setsampwidth(1)
+        w.setframerate(8000)
+        w.writeframes(bytes([128]) * (8 * ms))
+
+
+def job_same_basename(j):
+    """the base archive holds sounds with the SAME file name in different archive directories and different lengths;
+    PlayWav actions without a duration refer to each of them: each must get the true duration of ITS member"""
+    from richchk.editor.richchk.rich_chk_editor import RichChkEditor
+    from richchk.io.mpq.starcraft_mpq_io_helper import StarCraftMpqIoHelper
+    from richchk.model.mpq.stormlib.stormlib_archive_mode import StormLibArchiveMode
+    from richchk.model.richchk.trig.actions.play_wav_action import PlayWavAction
+    from richchk.model.richchk.trig.conditions.always_condition import AlwaysCondition
+    from richchk.model.richchk.trig.player_id import PlayerId
+    from richchk.model.richchk.trig.rich_trig_section import RichTrigSection
+    from richchk.model.richchk.trig.rich_trigger import RichTrigger
+    from richchk.mpq.stormlib.stormlib_helper import StormLibHelper
+    work = Path(tempfile.mkdtemp(prefix="verif-c17-", dir=str(vlib.BUILD)))
+    try:
+        base = work / "base.scx"
+        shutil.copyfile(BASES[j["base"]], base)
+        wrapper = StormLibHelper.load_stormlib()
+        sounds = {}
+        h = wrapper.open_archive(str(base), StormLibArchiveMode.STORMLIB_WRITE_ONLY)
+        try:
+            for k, (member, ms) in enumerate(j["members"]):
+                f = work / f"src{k}.wav"
+                make_wav(f, ms)
+                wrapper.add_file(h, str(f), member, overwrite_existing=True)
+                sounds[member] = ms
+        finally:
+            wrapper.close_archive(h)
+        mpq_io = StarCraftMpqIoHelper.create_mpq_io()
+        rich = mpq_io.read_chk_from_mpq(str(base))
+        trig = next(s for s in rich.chk_sections if isinstance(s, RichTrigSection))
+        order = list(sounds)
+        t = RichTrigger(_conditions=[AlwaysCondition()], _players={PlayerId.PLAYER_1},
+                        _actions=[PlayWavAction(_path_to_wav_in_mpq=m) for m in order])
+        # the sounds are listed in the map's sound table (as the import does), so their paths are strings of the map
+        from richchk.editor.richchk.rich_wav_editor import RichWavEditor
+        from richchk.model.richchk.wav.rich_wav_section import RichWavSection
+        wavsec = next((s_ for s_ in rich.chk_sections if isinstance(s_, RichWavSection)), None)
+        rich1 = RichChkEditor().replace_chk_section(RichWavEditor().add_wav_files(order, wavsec), rich) if wavsec is not None else rich
+        rich2 = RichChkEditor().replace_chk_section(RichTrigSection(_triggers=trig.triggers + [t]), rich1)
+        out = work / "out.scx"
+        problems = []
+        mpq_io.save_chk_to_mpq(rich2, str(base), str(out))
+        v = SC.SpecView(SC.save(mpq_io.read_chk_from_mpq(str(out))))
+        for m, a in zip(order, v.triggers()[-1]["actions"][: len(order)]):
+            if not isinstance(a, dict) or a.get("type") != 8:
+                problems.append("the authored PlayWav action is not where it was put")
+            elif a["_duration_ms"] != sounds[m]:
+                problems.append(f"PlayWav of member {m!r}: duration {a['_duration_ms']} ms, the member is {sounds[m]} ms long")
+        mb, mo = members(wrapper, base), members(wrapper, out)
+        for n in mb:
+            if n not in (CHK, "(listfile)") and mo.get(n) != mb[n]:
+                problems.append(f"member {n!r} lost or changed")
+        return {"problems": problems, "members": len(mo)}
+    finally:
+        shutil.rmtree(work, ignore_errors=True)
+
+
 if __name__ == "__main__":
     out = []
     for j in json.loads(sys.stdin.read()):
         try:
-            out.append(job_save(j) if j["kind"] == "save" else job_audio(j))
+            out.append(job_save(j) if j["kind"] == "save" else job_same_basename(j) if j["kind"] == "same-basename" else job_audio(j))
         except Exception as ex:  # noqa
             import traceback
             out.append({"harness_error": traceback.format_exc()[-900:]})
